@@ -227,11 +227,30 @@ def r2_nodes(m, ctx, blocks):
                        and isinstance(n.value.func, ast.Name) for n in A.body_nodes(f.node))
             if loops and ctor:
                 own.append((k, f))
+    # ... and module-level helpers of the grammar modules that build nodes from a reader in a loop (a matcher may delegate to one)
+    helpers = {}
+    for (p_, q), f in sorted(m.funcs.items()):
+        pp = p_.replace("\\", "/")
+        if "/two/" not in pp or "/tests/" in pp or "." in q or "reader" not in A.param_names(f.node):
+            continue
+        loops = [n for n in A.body_nodes(f.node) if isinstance(n, (ast.While, ast.For))]
+        ctor = any(isinstance(n, ast.Assign) and isinstance(n.value, ast.Call) and n.value.args and A.text(n.value.args[0]) == "reader"
+                   and isinstance(n.value.func, ast.Name) for n in A.body_nodes(f.node))
+        returns_none = any(isinstance(n, ast.Return) and (n.value is None or A.const(n.value, 0) is None) for n in A.body_nodes(f.node))
+        if loops and ctor and returns_none and any(isinstance(c, ast.Call) and isinstance(c.func, ast.Attribute) and c.func.attr == "restore_reader"
+                                                   for c in ast.walk(f.node)):
+            helpers[q] = f
     names = sorted(c.split(":")[1] for c, f in own)
-    r.notes.append("reader-level matchers with their own loop: %s" % names)
+    r.notes.append("reader-level matchers with their own loop: %s; helpers: %s" % (names, sorted(helpers)))
     for need in ("Program", "Component_Part", "Outer_Shared_Do_Construct", "Inner_Shared_Do_Construct"):
         if need not in names:
-            r.error("%s.match is no longer a reader-level matcher with its own loop (anchor changed)" % need)
+            k_ = m.key(need, F03)
+            f_ = m.method(k_, "match") if k_ else None
+            delegated = f_ is not None and any(isinstance(c.func, ast.Name) and c.func.id in helpers for c in A.calls(f_.node))
+            if not delegated:
+                r.error("%s.match is no longer a reader-level matcher with its own loop (anchor changed)" % need)
+    for q, f in sorted(helpers.items()):
+        cb.run_consume(ctx, f, None, r, f.qualname)
     for k, f in own:
         cb.run_consume(ctx, f, None, r, f.qualname)
     return r
@@ -314,6 +333,8 @@ def run(m, tier):
     results.append(reader_interp.comments_rule(m, "C11.R13", tier))
     from rules import prog_rules
     results.append(prog_rules.comments_rule(m, "C11.R16", tier))
+    from rules import order_rules as _or_gb
+    results.append(_or_gb.giveback_complete_rule(m, "C11.R17"))
     expl = ("Decides structural clauses of C11: per call site of the block engine the class list tried at every position contains the "
             "comment, include, preprocessor (and, exactly under process_directives, directive) classes; comments are collected before "
             "each opening statement and around every program unit, with both collectors in every round; every reader item and every "
